@@ -888,7 +888,15 @@ def gc_history_cases(exhaustive_len: int = 3, sample: int = 0, sample_len: int =
     TLC has checked GCKeepsReachable / GCRemovesOldOrphans / RetainedImmutable on every step."""
     given = sample_histories("gc", sample, sample_len, seed,
                              weights={"open": 2.0, "coll0": 1.5, "colldef": 1.5, "tickbig": 2.0}) if sample else []
+    given = [[OPS[x] for x in h] for h in GC_DIRECTED] + given
     return tlc_cases("gc", exhaustive_len, given, workers=workers)
+
+
+# directed histories (always evaluated by TLC and replayed under every location spelling): a transaction left open for longer
+# than any grace period while a collection runs; survivors of a partial delete after the older snapshots were expired
+GC_DIRECTED = [["open", "tickbig", "coll0", "commitopen"], ["open", "tickbig", "colldef", "commitopen", "coll0"],
+               ["open", "tickbig", "coll0", "rollback", "coll0"], ["append2", "del_first", "exp_all", "tickbig", "coll0"],
+               ["append2", "del_first", "ds_oldest", "tickbig", "colldef"]]
 
 
 def replay_case(case: Dict[str, Any], clock: VirtualClock, seed: int = 0, table_dir: Optional[str] = None,
